@@ -16,6 +16,7 @@ func init() {
 			"CH-SIB: every aggregator's Reset stores only zero values (zero value == reset state); batchApplier resets, applies each point once",
 			"PV-WHOLE: the assembled result of topk/bottomk/sort is never cut after the per-group selection",
 			"PV-FRESH per-step group tables; PV-NUM: no aggregator accumulates the raw square of its input",
+			"PV-NUM sum: Apply is state += v, Result the state (no Inf - Inf); PV-INJKEY/MO: the grouping key of the retained labels is injective and independent of map iteration order",
 		},
 		NotDecided: []string{"aggregate arithmetic (Welford, NaN handling)", "final ordering for ties", "container/heap correctness"},
 		Rules: func(r *Run) {
@@ -30,6 +31,9 @@ func init() {
 			ruleStepSamplesAccumulate(r, []string{"vectorAggIterator", "vectorAggHeapIterator", "rangeAggIterator"})
 			rulePerStepGroupTables(r, []string{"vectorAggIterator", "vectorAggHeapIterator"})
 			ruleNoSumOfSquares(r)
+			ruleSumAggregatorPlain(r)
+			ruleKeyEncoders(r) // one group per distinct retained label combination: the grouping key is injective and order-independent
+			ruleMO(r, 10, "aggregatedLabels", "newAggregatedLabels")
 		},
 	})
 }
